@@ -83,6 +83,9 @@ func (s c08Shape) method() pg.Method {
 		if s.ExtraSet == 2 {
 			p.Type = c08PointerExtraTypes[i]
 		}
+		if s.ExtraSet == 3 && i == s.Extras-1 {
+			p.Type = "...int" // a variadic last parameter stays variadic: callers write f(src, 1, 2)
+		}
 		if s.Named {
 			p.Name = fmt.Sprintf("x%d", i)
 		}
@@ -287,7 +290,7 @@ func c08JudgeLegal(env *hx.Env, shapes []c08Shape) (hx.Verdict, int) {
 			}
 			es := e.Type().(*types.Signature)
 			wantTxt = append(wantTxt, types.TypeString(es, types.RelativeTo(home)))
-			if types.Identical(types.NewSignatureType(nil, nil, nil, sig.Params(), sig.Results(), false), es) &&
+			if types.Identical(types.NewSignatureType(nil, nil, nil, sig.Params(), sig.Results(), sig.Variadic()), es) &&
 				fmt.Sprint(sigNames(sig.Params())) == fmt.Sprint(sigNames(es.Params())) &&
 				fmt.Sprint(sigNames(sig.Results())) == fmt.Sprint(sigNames(es.Results())) {
 				matched = true
@@ -355,7 +358,7 @@ func c08All() []c08Shape {
 				s.Alias = false
 			}
 			if ex > 0 && !s.Reverse {
-				for set := 1; set <= 2; set++ {
+				for set := 1; set <= 3; set++ {
 					s.ExtraSet = set
 					s.Name = fmt.Sprintf("Convert%04d", n)
 					n++
